@@ -9,8 +9,8 @@ set -u
 D=$(cd "$1" && pwd); ID=$2; shift 2
 export GOFLAGS=-mod=mod GOPROXY=off GOSUMDB=off GOTOOLCHAIN=local
 WT=/tmp/sc-$$
-git -C /repo worktree add --detach "$WT" HEAD -q || exit 2
-cleanup() { git -C /repo worktree remove --force "$WT" 2>/dev/null; rm -rf "$WT.build" /tmp/sc-$$.*; [ "${APPLY_TO_REPO:-}" = 1 ] && git -C /repo checkout -q -- . ; }
+flock /tmp/seedcheck.lock git -C /repo worktree add --detach "$WT" HEAD -q || exit 2
+cleanup() { flock /tmp/seedcheck.lock git -C /repo worktree remove --force "$WT" 2>/dev/null; rm -rf "$WT.build" /tmp/sc-$$.*; [ "${APPLY_TO_REPO:-}" = 1 ] && git -C /repo checkout -q -- . ; }
 trap cleanup EXIT
 RACE=""; grep -qi -- "-race" "$D/README.md" 2>/dev/null && RACE="-race"
 cp "$D/demo_test.go" "$WT/zz_demo_test.go"
